@@ -8,8 +8,28 @@ import math
 import z3
 
 
+PI_DIGITS = '3.14159265358979323846264338327950288419716939937510582097494459230781640628620899862803482534211706798'
+PI_LO = Fraction(PI_DIGITS[:62])
+PI_HI = PI_LO + Fraction(1, 10 ** 60)
+
+
 class Z3Alg:
     exact = True
+
+    def pi(self):
+        """pi as a variable enclosed in a rational interval of width 1e-60 (far below 2^-64 relative), so a verdict
+        holds for the true value"""
+        p = z3.Real('pi!')
+        if not getattr(self, '_pi', False):
+            self._pi = True
+            self.defs += [p > self.const(PI_LO), p < self.const(PI_HI)]
+        return p
+
+    def pow(self, v, n):
+        r = self.const(1)
+        for _ in range(abs(n)):
+            r = r * v
+        return r if n >= 0 else 1 / r
 
     def __init__(self, prefix='s'):
         self.defs = []
@@ -35,6 +55,12 @@ class Z3Alg:
 
 class FracAlg:
     exact = False
+
+    def pi(self):
+        return Fraction(PI_DIGITS)
+
+    def pow(self, v, n):
+        return Fraction(v) ** n
 
     def const(self, q):
         return Fraction(q)
